@@ -383,7 +383,7 @@ def run(ctx):
                "said at corpus-build time (corpus/ident/truth.txt); it is only used while the sample's sha256 is unchanged")
     ctx.assume("'no unbounded loop / allocation' is observed as: an input (or %d input(s) stopped at the same frame after "
                "%.1f s) does not finish within %.0f s of CPU time (ITIMER_PROF); RLIMIT_AS = 1 GiB; any MemoryError / "
-               "RecursionError raised during the call; peak-RSS jump > 300 MB"
+               "RecursionError raised during the call, even if swallowed"
                % (REPS[ctx.tier], L1[ctx.tier], L2[ctx.tier]))
     ctx.assume("an object returned by a line-oriented parser (HEX/SREC) that was started with the file cursor not at 0 "
                "is not an identification of the given byte string (clause AcceptFromSuffix)")
